@@ -375,6 +375,10 @@ impl Resolver<'_> {
 
                 let [format, text_expr] = unpack::<2>(func.args);
 
+                // errors in the data are located at the text: the format may be the
+                // default value, whose span is not in the user's sources
+                let text_span = text_expr.span;
+
                 let text = match text_expr.kind {
                     ExprKind::Literal(Literal::String(text)) => text,
                     _ => {
@@ -394,9 +398,9 @@ impl Resolver<'_> {
                         .to_string();
                     match format.as_str() {
                         "csv" => from_text::parse_csv(&text)
-                            .map_err(|r| Error::new_simple(r).with_span(span))?,
+                            .map_err(|r| Error::new_simple(r).with_span(text_span))?,
                         "json" => from_text::parse_json(&text)
-                            .map_err(|r| Error::new_simple(r).with_span(span))?,
+                            .map_err(|r| Error::new_simple(r).with_span(text_span))?,
 
                         _ => {
                             return Err(Error::new(Reason::Expected {
